@@ -7,7 +7,7 @@
    implementation side by the monitor (DESIGN.md section 10: partial). *)
 From Coq Require Import ZArith NArith Bool List.
 From Mysync Require Import Gtid.Interval Gtid.GtidSet Pure.Quorum Base.Prog Base.ProgFacts Base.Config
-  Procs.NodeOps Procs.ActiveNodes Procs.Switchover Procs.Manager Proofs.ManagerProofs.
+  Procs.NodeOps Procs.ActiveNodes Procs.Switchover Procs.Manager Proofs.ManagerProofs Proofs.GatesProofs.
 Import ListNotations.
 Open Scope Z_scope.
 
@@ -71,3 +71,33 @@ Theorem C05_suspicious_master_does_nothing : forall cfg cs csd active m master l
   forall tr g m', runs (after_requests cfg cs csd active m master light) tr (Done (g, m')) -> g = GNext NxManager.
 Proof. exact suspicious_master_does_nothing. Qed.
 Print Assumptions C05_suspicious_master_does_nothing.
+
+(* ---- the whole iteration ------------------------------------------------------------------------
+   a request is filed, anywhere in an iteration of stateManager (gates and repair tail), only after the
+   maintenance record AND the pending-request key were both read as absent earlier in that iteration *)
+Theorem C05_iteration_files_only_with_gates_open : forall cfg env m tr o,
+  runs (state_manager cfg env m) tr o ->
+  forall e, In e tr -> is_file_request (ev_call e) ->
+    (exists gm, In gm tr /\ read_absent PMaintenance gm) /\ (exists gs, In gs tr /\ read_absent PSwitch gs).
+Proof. exact iteration_files_only_with_gates_open. Qed.
+Print Assumptions C05_iteration_files_only_with_gates_open.
+
+(* before the repair tail the only thing that files is failure detection with light maintenance off
+   (hence, by C05_detection_files_only_when_approved, an approval) *)
+Theorem C05_gates_file_only_through_detection : forall cfg env m tr o,
+  runs (manager_gates cfg env m) tr o ->
+  forall e, In e tr -> is_file_request (ev_call e) -> gates_open cfg tr e.
+Proof. exact gates_file_only_with_gates_open. Qed.
+Print Assumptions C05_gates_file_only_through_detection.
+
+(* in the repair tail the only thing that files is the crash-recovery failover: light maintenance off, an
+   approval obtained in the same run, and what is filed is the automatic failover from the recorded master *)
+Theorem C05_tail_files_only_when_approved : forall cfg env m c tr o,
+  runs (manager_tail cfg env m c) tr o ->
+  forall e, In e tr -> is_file_request (ev_call e) ->
+    tc_light c = false /\
+    (exists t, ev_call e = DcsCreate PSwitch (auto_request (tc_master c) t)) /\
+    exists msd m1 tr_a, assoc (tc_master c) (tc_csd c) = Some msd /\
+      runs (approve_failover cfg (tc_cs c) msd (tc_active c) m1 (tc_master c)) tr_a (Done true) /\ incl tr_a tr.
+Proof. exact tail_files_only_when_approved. Qed.
+Print Assumptions C05_tail_files_only_when_approved.
